@@ -55,7 +55,7 @@ def _run_base(ctx):
              floor=4, floor_what='four disable functions')
     ctx.rule('R18.3', 'driver disable removes exactly the section the driver enable registers', floor=2)
     ctx.rule('R18.4', 'attributes file: marker test before append, mode a, one line, marker names the registered driver',
-             floor=8)
+             floor=5)
     ctx.rule('R18.5', 'config-git runs all four commands and propagates the first failure', floor=1)
 
     enable_sections = {}
@@ -226,14 +226,24 @@ def _run_base(ctx):
         # marker test before append
         tests = []
         for s in g.stmts():
-            if isinstance(s, ast.If) and isinstance(s.test, ast.Compare) and isinstance(s.test.ops[0], ast.In) and \
-                    isinstance(s.test.left, ast.Constant) and isinstance(s.test.left.value, str):
-                tests.append(s)
+            if isinstance(s, ast.If):
+                cmps = [c for c in ast.walk(s.test) if isinstance(c, ast.Compare) and isinstance(c.ops[0], ast.In) and
+                        isinstance(c.left, ast.Constant) and isinstance(c.left.value, str)]
+                if cmps:
+                    tests.append((s, cmps[0]))
         if not tests:
             ctx.inst('R18.4', fid, '<no marker test>', False, 'the line is appended without checking whether it is already there (not idempotent)', en)
             continue
-        t = tests[0]
-        tested = t.test.left.value
+        t, mcmp = tests[0]
+        tested = mcmp.left.value
+        # the test must look at RULE lines: a substring test on the whole file also matches a commented-out line or a rule for another pattern
+        per_line = any(isinstance(ge, (ast.GeneratorExp, ast.ListComp)) and any(x is mcmp for x in ast.walk(ge)) and
+                       any(isinstance(c, ast.Call) and isinstance(c.func, ast.Attribute) and c.func.attr == 'startswith' and c.args and const_val(c.args[0]) == '#'
+                           for i_ in ge.generators[0].ifs for c in ast.walk(i_)) for ge in ast.walk(t.test))
+        ctx.inst('R18.4', fid, 'marker test reads %s' % ('rule lines (comments skipped)' if per_line else 'the whole file text'), per_line,
+                 'only an effective rule line counts as installed' if per_line else
+                 '`%r in <file text>` is true for a commented-out line ("# *.ipynb %s", the obvious way to switch the integration off by hand) or a rule for another pattern: '
+                 'enable then adds nothing and `git check-attr` stays unspecified -- enabling has no effect' % (tested, tested), t)
         ok = tested in text and kind in tested and 'jupyternotebook' in tested
         ctx.inst('R18.4', fid, '%r in <file content>' % tested, ok,
                  'tested marker is a substring of the written line and names this driver' if ok else
